@@ -364,4 +364,54 @@ theorem demoEnv_lawful : demoEnv.Lawful where
     subst this
     exact List.length_reverse
 
+/-! ### re-encoding the packet the encoder left behind -/
+theorem or_or_self (a b : BitVec 8) : (a ||| b) ||| b = a ||| b := by
+  rw [BitVec.or_assoc, BitVec.or_self]
+theorem or_or_or_self (a b c : BitVec 8) : ((a ||| b) ||| c) ||| b = (a ||| b) ||| c := by
+  ext i; simp; cases a[i] <;> cases b[i] <;> cases c[i] <;> simp
+
+/-- the packet the encoder leaves behind (codec bits set) marshals to the same wire body and stays the same -/
+theorem marshal_again (P : Params) (e : Env) (p p' : Pkt) (w : Bytes)
+    (h : marshalBody P e p = .ok (w, p')) : marshalBody P e p' = .ok (w, p') := by
+  unfold marshalBody at h ⊢
+  cases hb : bodyToBytes P e p.body with
+  | none => simp [hb] at h
+  | some body =>
+    simp only [hb] at h
+    by_cases hc : e.threshold > 0 ∧ body.length > e.threshold
+    · simp only [hc, and_self, if_true] at h
+      cases hz : e.compress body with
+      | none => simp [hz] at h
+      | some z =>
+        simp only [hz] at h
+        cases he : e.enc with
+        | none =>
+          simp only [he] at h
+          injection h with h; injection h with h1 h2; subst h1; subst h2
+          simp [hb, hc, hz, or_or_self]
+        | some f =>
+          simp only [he] at h
+          by_cases hl : z.length > 0
+          · simp only [hl, if_true] at h
+            injection h with h; injection h with h1 h2; subst h1; subst h2
+            simp [hb, hc, hz, hl, or_or_or_self, or_or_self]
+          · simp only [hl, if_false] at h
+            injection h with h; injection h with h1 h2; subst h1; subst h2
+            simp [hb, hc, hz, hl, or_or_self]
+    · simp only [hc, if_false] at h
+      cases he : e.enc with
+      | none =>
+        simp only [he] at h
+        injection h with h; injection h with h1 h2; subst h1; subst h2
+        simp [hb, hc]
+      | some f =>
+        simp only [he] at h
+        by_cases hl : body.length > 0
+        · simp only [hl, if_true] at h
+          injection h with h; injection h with h1 h2; subst h1; subst h2
+          simp [hb, hc, hl, or_or_self]
+        · simp only [hl, if_false] at h
+          injection h with h; injection h with h1 h2; subst h1; subst h2
+          simp [hb, hc, hl]
+
 end Fatchoy.Codec
